@@ -42,8 +42,8 @@ static void window_kept(struct netbuf_read * R, size_t avail)
 	uint8_t * d; size_t n;
 	netbuf_read_peek(R, &d, &n);
 	CHECK(n >= avail && d == R->buf + R->bufpos, "peek starts at the first unconsumed byte");
-	size_t i = nd_size(); ASSUME(i < avail && i < 8);
-	CHECK(d[i] == G[i], "unconsumed bytes preserved in order (across growth and compaction)");
+	size_t i = nd_size();	/* no ASSUME here: with avail == 0 it would silently drop the path and everything checked after it */
+	if (i < avail && i < 8) CHECK(d[i] == G[i], "unconsumed bytes preserved in order (across growth and compaction)");
 }
 static void op_wait(size_t buflen, size_t len)
 {
@@ -62,7 +62,7 @@ static void op_wait(size_t buflen, size_t len)
 			CHECK(nr_calls == 1 && R->read_cookie == &TOK_R && R->immediate_cookie == NULL, "one read request pending");
 			CHECK(nr_buf == R->buf + R->datalen, "read lands directly after the buffered data");
 			CHECK(nr_cap == R->buflen - R->datalen && VH_EXACT_OBJECT(R->buf, R->buflen), "read capacity = free space to the end of the allocation");
-			CHECK(nr_min == len - avail && nr_min >= 1 && nr_min <= nr_cap, "minimum read = bytes still missing for k, and it fits");
+			CHECK(nr_min >= 1 && nr_min <= len - avail && nr_min <= nr_cap, "minimum read between 1 and the bytes still missing for k, and it fits");
 			CHECK(nr_cb == callback_read && nr_ck == R, "completion routed back to this reader");
 		}
 	}
@@ -82,27 +82,75 @@ static void op_wait(size_t buflen, size_t len)
 #endif
 void h_wait(void) { switch (nd_int_in(0, 2)) { case 0: op_wait(1, WLEN); break; case 1: op_wait(4, WLEN); break; default: op_wait(8, WLEN); break; } REACHED(); }
 
-static void op_complete(size_t buflen)
+/*
+ * A wait that is cancelled after SOME of its bytes arrived: network.h's read request takes bytes off the socket as
+ * they come (C06) and calls back once minread of them are there; until then the request stays pending.  Whatever the
+ * transport delivered before the cancel must still reach the application ("nothing lost").
+ */
+static void op_partial_cancel(size_t buflen, size_t len)
 {
 	struct netbuf_read * R = mk(buflen);
-	size_t avail = dl0 - bp0, len = nd_size();
-	ASSUME(len > avail && len <= buflen - bp0);	/* a read is pending for k > avail bytes, request as established by wait */
-	size_t cap = buflen - dl0, minr = len - avail;
-	R->callback = ucb; R->cookie = &UC; R->read_cookie = &TOK_R;
-	ssize_t n = (ssize_t)nd_i64();
-	ASSUME(n == -1 || n == 0 || (n >= (ssize_t)minr && n <= (ssize_t)cap));	/* C06: what network_read can report */
-	int viaimm = 0;
-	int rc = callback_read(R, n);
-	CHECK(rc == 0 && u_calls == 1 && u_ck == &UC, "exactly one wait callback");
-	CHECK(R->read_cookie == NULL, "no longer pending");
-	if (n > 0) { CHECK(u_status == 0, "success"); CHECK(R->datalen == dl0 + (size_t)n && R->datalen - R->bufpos >= len, "k unconsumed bytes are now visible"); }
-	else if (n == 0) CHECK(u_status == 1 && R->datalen == dl0, "end of stream reported, data untouched");
-	else CHECK(u_status == -1 && R->datalen == dl0, "transport error reported, data untouched");
+	size_t avail = dl0 - bp0;
+	ASSUME(avail < len);
+	int rc = netbuf_read_wait(R, len, ucb, &UC);
+	ASSUME(rc == 0);
+	CHECK(nr_calls == 1 && nr_min >= 1 && nr_min <= nr_cap, "one read request pending");
+	size_t p = nd_size(); ASSUME(p >= 1 && p <= nr_cap);	/* the transport delivers p bytes into the request's buffer */
+	size_t j = nd_size(); ASSUME(j < p); uint8_t v = nd_u8();
+	nr_buf[j] = v;	/* one observed byte of the delivery (arbitrary index) */
+	uint8_t * land = nr_buf;
+	if (p >= nr_min) {
+		CHECK(nr_cb == callback_read && nr_ck == R, "completion routed back to this reader");
+		nr_calls = 0;
+		(void)callback_read(R, (ssize_t)p);	/* the request completes (called directly: through the pointer CBMC unwinds a spurious recursion) */
+	}
+	/* otherwise the request is still pending with p < minread bytes received */
+	netbuf_read_wait_cancel(R);
+	CHECK(R->read_cookie == NULL && R->immediate_cookie == NULL, "cancel leaves nothing pending");
+	uint8_t * d; size_t n;
+	netbuf_read_peek(R, &d, &n);
+	CHECK(n == avail + p, "every byte the transport delivered before the cancel is still there (nothing lost)");
+	if (n == avail + p) CHECK(d + avail == land && d[avail + j] == v, "and follows the earlier unconsumed bytes in order");
 	window_kept(R, avail);
-	(void)viaimm;
 	netbuf_read_free(R);
 }
-void h_complete(void) { switch (nd_int_in(0, 1)) { case 0: op_complete(4); break; default: op_complete(8); break; } REACHED(); }
+void h_partial_cancel(void) { switch (nd_int_in(0, 1)) { case 0: op_partial_cancel(4, WLEN); break; default: op_partial_cancel(8, WLEN); break; } REACHED(); }
+
+static void op_complete(size_t buflen, size_t len)
+{
+	struct netbuf_read * R = mk(buflen);
+	size_t avail = dl0 - bp0;
+	ASSUME(len > avail && len <= buflen - bp0);	/* no growth / compaction here (h_wait covers them): the ghost window stays in place */
+	int rc = netbuf_read_wait(R, len, ucb, &UC);
+	ASSUME(rc == 0);
+	size_t got = 0;
+	for (int round = 0; round < 2; round++) {
+		/* a request is pending: the transport answers within network.h's contract */
+		CHECK(R->read_cookie == &TOK_R && nr_cb == callback_read && nr_ck == R, "a read request is pending and routed back");
+		CHECK(nr_buf == R->buf + R->datalen && nr_cap == R->buflen - R->datalen && nr_min >= 1 && nr_min <= nr_cap, "it lands right after the buffered data, inside the allocation");
+		ssize_t n = (ssize_t)nd_i64();
+		ASSUME(n == -1 || n == 0 || (n >= (ssize_t)nr_min && n <= (ssize_t)nr_cap));	/* C06: what network_read can report */
+		nr_calls = 0; nr_refuse = nd_bool();
+		int r2 = callback_read(R, n);
+		CHECK(r2 == 0, "callback status passed through");
+		if (n > 0) got += (size_t)n;
+		if (n <= 0) {
+			CHECK(u_calls == 1 && u_ck == &UC && u_status == (n == 0 ? 1 : -1) && R->read_cookie == NULL && nr_calls == 0, "EOF / transport error reported once, nothing left pending");
+			CHECK(R->datalen == dl0 + got, "data untouched");
+			break;
+		}
+		CHECK(R->datalen == dl0 + got && R->bufpos == bp0, "received bytes accounted for at once");
+		if (avail + got >= len) { CHECK(u_calls == 1 && u_ck == &UC && u_status == 0 && R->read_cookie == NULL && nr_calls == 0, "k unconsumed bytes are there: success reported exactly once"); break; }
+		/* not enough yet: no callback unless the next request cannot be made */
+		if (nr_refuse) { CHECK(u_calls == 1 && u_status == -1 && R->read_cookie == NULL, "cannot continue reading: failure reported once"); break; }
+		CHECK(u_calls == 0 && nr_calls == 1, "fewer than k bytes so far: never reports success early, keeps reading");
+		if (round == 1) break;
+	}
+	window_kept(R, avail);
+	netbuf_read_wait_cancel(R);
+	netbuf_read_free(R);
+}
+void h_complete(void) { switch (nd_int_in(0, 1)) { case 0: op_complete(4, WLEN); break; default: op_complete(8, WLEN); break; } REACHED(); }
 
 void h_misc(void)
 {
@@ -114,8 +162,8 @@ void h_misc(void)
 		uint8_t * d; size_t n;
 		netbuf_read_peek(R, &d, &n);
 		CHECK(n == avail - j, "consume(j) removes exactly j bytes");
-		size_t i = nd_size(); ASSUME(i < n && i + j < 8);
-		CHECK(d[i] == G[i + j], "and the rest follows in order");
+		size_t i = nd_size();
+		if (i < n && i + j < 8) CHECK(d[i] == G[i + j], "and the rest follows in order");
 	} else {
 		R->callback = ucb; R->cookie = &UC; R->immediate_cookie = &TOK_I;
 		int rc = callback_success(R);
